@@ -324,3 +324,61 @@ def thrift_reader_forms(ctx, rule10, rule12):
             any(isinstance(x, ast.IfExp) and 'isinstance' in norm(x.test) and any(c is y for y in ast.walk(x.body)) for x in ast.walk(g))
         ctx.ob(rule12, 'cencoding.ThriftObject.__setattr__:list-elements-cast-only-after-a-type-test', tested,
                '`%s` for every element of the assigned list: a list of str or int is not a list of ThriftObject' % norm(c)[:40], cen.loc(c))
+
+
+# LogicalType members that need no legacy spelling, one line of reason each
+_LOGICAL_EXEMPT = {
+    'TIMESTAMP': 'read from logicalType directly (typemap / convert look at logicalType.TIMESTAMP first)',
+    'UNKNOWN': 'the all-null type: no values to interpret',
+    'UUID': 'no legacy equivalent; the 16 bytes are handed out as they are',
+}
+
+
+def logical_annotations(ctx, rule):
+    """An annotation means the same whether the file spells it as converted_type or (newer writers, optionally alone)
+    as logicalType; everything downstream (typemap, convert, text decoding, statistics) reads converted_type.  So:
+    every schema element goes through the normalising step while the helper is built, before the tree is made, and that
+    step names every member of the IDL's LogicalType union that has a legacy equivalent."""
+    sch = ctx.repo['schema']
+    init = sch.func('SchemaHelper.__init__')
+    loops = [lp for lp in ast.walk(init) if isinstance(lp, ast.For) and norm(lp.iter) == 'schema_elements']
+    calls = [c for lp in loops for c in ast.walk(lp) if isinstance(c, ast.Call) and callee(c) and callee(c).split('.')[-1].startswith('_legacy')
+             and c.args and isinstance(lp.target, ast.Name) and norm(c.args[0]) == lp.target.id]
+    tree_calls = [c for c in ast.walk(init) if isinstance(c, ast.Call) and callee(c) == 'schema_tree']
+    ok = bool(calls) and bool(tree_calls) and all((c.lineno, c.col_offset) < (t.lineno, t.col_offset) for c in calls for t in tree_calls)
+    ctx.ob(rule, 'schema.SchemaHelper.__init__:every-element-normalised-before-the-tree-is-built', ok,
+           'a column annotated only through logicalType is otherwise read as its raw physical type', sch.loc(init))
+    if not calls:
+        return
+    fn_name = callee(calls[0]).split('.')[-1]
+    if fn_name not in sch.funcs:
+        ctx.ob(rule, 'schema.%s:defined' % fn_name, False, '', sch.loc(init))
+        return
+    g = sch.funcs[fn_name]
+    mentioned = {x.value for x in ast.walk(g) if isinstance(x, ast.Constant) and isinstance(x.value, str)} | \
+                {x.attr for x in ast.walk(g) if isinstance(x, ast.Attribute)}
+    for t in module_level_strings(sch, g):
+        mentioned |= t
+    members = sorted(ctx.idl.structs.get('LogicalType', {}))
+    ctx.floor(rule, 'members of the LogicalType union in parquet.thrift', len(members), 12)
+    for mname in members:
+        if mname in _LOGICAL_EXEMPT:
+            continue
+        ctx.ob(rule, 'schema.%s:logical-%s-has-its-legacy-spelling' % (fn_name, mname), mname in mentioned,
+               'LogicalType.%s given without converted_type must be read like the converted_type the format names for it' % mname, sch.loc(g))
+    # it fills in, it never overrides: a converted_type that is present wins
+    guards = [norm(x.test) for x in ast.walk(g) if isinstance(x, ast.If)]
+    ctx.ob(rule, 'schema.%s:an-explicit-converted_type-is-kept' % fn_name,
+           any('converted_type is not None' in t for t in guards) or any('converted_type is None' in t for t in guards),
+           'tests: %s' % guards[:4], sch.loc(g))
+
+
+def module_level_strings(mod, func):
+    """string keys / values of module-level dict literals that `func` reads by name"""
+    out = []
+    used = {n.id for n in ast.walk(func) if isinstance(n, ast.Name)}
+    for name, vals in getattr(mod, 'assigns', {}).items():
+        if name in used:
+            for v in vals:
+                out.append({x.value for x in ast.walk(v) if isinstance(x, ast.Constant) and isinstance(x.value, str)})
+    return out
